@@ -334,11 +334,10 @@ func (e *Env) object(obj types.Object) Val {
 		}
 		efail("function %s has no body in this program", o.Name())
 	case *types.Var:
-		if o.Pkg() != nil && t.w.roGlobal[globalKey(o.Pkg(), o.Name())] {
-			if _, isStruct := o.Type().Underlying().(*types.Struct); !isStruct {
-				if _, isArr := o.Type().Underlying().(*types.Array); !isArr {
-					return Val{T: t.roGlobalVal(globalKey(o.Pkg(), o.Name()), o.Type()), Ty: o.Type()}
-				}
+		if o.Pkg() != nil && !t.inInit && t.w.roGlobal[globalKey(o.Pkg(), o.Name())] {
+			// (a struct constant is read as a whole value, exactly as the code reads it)
+			if _, isArr := o.Type().Underlying().(*types.Array); !isArr {
+				return Val{T: t.roGlobalVal(globalKey(o.Pkg(), o.Name()), o.Type()), Ty: o.Type()}
 			}
 		}
 		// global variable: load from its cell
